@@ -394,7 +394,8 @@ class HooksModule:
         seen, out = set(), []
         for r in self.registrations:
             # one function specialised by functools.partial counts once per distinct argument prefix
-            k = (id(r.hook), repr(getattr(r.closure, "bound", ())))
+            # ... and a function produced by a factory counts once per closure environment
+            k = (id(r.hook), repr(getattr(r.closure, "bound", ())), id(getattr(r.closure, "env", None)))
             if k not in seen:
                 seen.add(k)
                 out.append(r)
@@ -609,7 +610,13 @@ def fold_registrations(hm: "HooksModule"):
     enum_mod = ModuleRef("enum", attrs={"Enum": ClassRef("Enum", "enumbase"), "IntEnum": ClassRef("Enum", "enumbase")})
     sys_mod = ModuleRef("sys", attrs={"version_info": (3, 8, 0, "final", 0)})
     g = {hm.types_alias: types_mod, "attrs": attrs_mod, "enum": enum_mod, "sys": sys_mod,
-         "cattrs": ModuleRef("cattrs", attrs={"gen": ModuleRef("cattrs.gen", attrs={}), "Converter": ClassRef("Converter")})}
+         "cattrs": ModuleRef("cattrs", attrs={"gen": ModuleRef("cattrs.gen", attrs={
+             # the per-class factories are folded on their own (special.fold_factories); here the generator functions only
+             # have to exist as values (they may be bound into a functools.partial at registration time)
+             "make_dict_unstructure_fn": ("host", lambda cls, conv, **kw: Record("generated_fn", {"direction": "unstructure", "cls": cls, "converter": conv, "overrides": kw})),
+             "make_dict_structure_fn": ("host", lambda cls, conv, **kw: Record("generated_fn", {"direction": "structure", "cls": cls, "converter": conv, "overrides": kw})),
+             "override": ("host", lambda **kw: Record("override", kw)),
+         }), "Converter": ClassRef("Converter")})}
     for n in ("Union", "Optional", "Sequence", "List", "Iterable", "Dict", "Mapping", "Tuple", "Literal"):
         g[n] = TypingHead(n, to_ty)
     g["Any"] = TyVal(("prim", "any"))
@@ -666,8 +673,8 @@ def fold_registrations(hm: "HooksModule"):
     g["abc"] = ModuleRef("collections.abc", attrs={"Sequence": SEQ_ORIGIN, "Mapping": MAP_ORIGIN})
     g["collections"] = ModuleRef("collections", attrs={"abc": g["abc"]})
     g["Ellipsis"] = Ellipsis
-    g["functools"] = microeval.functools_module()
     it = Interp(name=hm.rel, extra_globals=g)
+    it.globals["functools"] = microeval.functools_module(it)
     it.globals["itertools"] = microeval._itertools_module(it)
     hm.fold_interp = it
     hm.fold_from_ty = from_ty
